@@ -29,6 +29,8 @@ def _reserialisation_differs_at(v, m):
     sig = v["sig"]
     if not sig.get("reser_differs") or sig.get("check_zero"):
         return False
+    if sig.get("reser_check_differs"):
+        return False  # the accepted PDU no longer carries the check value it received: not "the received value fits the normalised fields"
     per_kind = m.get("positions", {}).get(sig.get("kind"))
     if per_kind is None or sig.get("fields") not in per_kind:
         return False
